@@ -145,11 +145,18 @@ class Canon:
         if op == 'load':
             return '*' + self.addr(d.ops[0], env)
         if op in ('zext', 'sext', 'trunc'):
-            return f'{op}.{d.ty}({self.val(d.ops[0], env, depth + 1)})'
+            inner = self.val(d.ops[0], env, depth + 1)
+            if INT.match(inner) and d.ty and d.ty[1:].isdigit() and d.optys and d.optys[0][1:].isdigit():
+                return str(_fold_cast(op, int(inner), int(d.optys[0][1:]), int(d.ty[1:])))
+            return f'{op}.{d.ty}({inner})'
         if op in ('bitcast', 'ptrtoint', 'inttoptr'):
             return self.val(d.ops[0], env, depth + 1)
         if op in ('add', 'sub', 'mul', 'and', 'or', 'xor', 'shl', 'lshr', 'ashr', 'sdiv', 'udiv', 'srem', 'urem'):
             a, b = self.val(d.ops[0], env, depth + 1), self.val(d.ops[1], env, depth + 1)
+            if INT.match(a) and INT.match(b) and d.ty and d.ty[1:].isdigit():
+                fv = _fold_bin(op, int(a), int(b), int(d.ty[1:]))
+                if fv is not None:
+                    return str(fv)
             if op in ('add', 'mul', 'and', 'or', 'xor') and b < a:
                 a, b = b, a
             return f'({a} {op} {b})'
@@ -169,6 +176,29 @@ class Canon:
         if op == 'alloca':
             return f'local{v}'
         return f'{op}?{v}'
+
+def _wrap(v, w, signed=True):
+    v &= (1 << w) - 1
+    if signed and v >> (w - 1):
+        v -= 1 << w
+    return v
+
+def _fold_cast(op, a, w0, w1):
+    if op == 'zext':
+        return _wrap(a & ((1 << w0) - 1), w1)
+    return _wrap(a, w1)
+
+def _fold_bin(op, a, b, w):
+    ua, ub = a & ((1 << w) - 1), b & ((1 << w) - 1)
+    if op in ('sdiv', 'srem', 'udiv', 'urem') and b == 0:
+        return None
+    if op in ('shl', 'lshr', 'ashr') and not (0 <= b < w):
+        return None
+    r = {'add': lambda: a + b, 'sub': lambda: a - b, 'mul': lambda: a * b, 'and': lambda: a & b, 'or': lambda: a | b, 'xor': lambda: a ^ b,
+         'shl': lambda: a << b, 'lshr': lambda: ua >> b, 'ashr': lambda: a >> b,
+         'sdiv': lambda: abs(a) // abs(b) * (1 if (a >= 0) == (b >= 0) else -1), 'srem': lambda: (abs(a) % abs(b)) * (1 if a >= 0 else -1),
+         'udiv': lambda: ua // ub, 'urem': lambda: ua % ub}[op]()
+    return _wrap(r, w)
 
 def strip_int_casts(fn, v):
     while True:
